@@ -1167,6 +1167,14 @@ class Compiler:
         local_vars_set = set(self.locals)
         if isinstance(node.body, BlockStatement):
             self._collect_var_decls(node.body, local_vars_set)
+        # var declarations are hoisted: they are locals from the first
+        # statement on, exactly as in _compile_function
+        for var in local_vars_set:
+            if var not in self.locals:
+                self.locals.append(var)
+
+        # Nested functions look their outer variables up in this scope too
+        self._outer_locals.append(self.locals[:])
 
         # Find variables captured by inner functions
         captured = self._find_captured_vars(node.body, local_vars_set)
@@ -1175,6 +1183,8 @@ class Compiler:
         # Find all free variables needed
         required_free = self._find_required_free_vars(node.body, local_vars_set)
         self._free_vars = list(required_free)
+
+        self._outer_locals.pop()
 
         if node.expression:
             # Expression body: compile expression and return it
